@@ -10,7 +10,7 @@ from .. import symx, spec, aud
 from ..aud import REL, W
 from ..symx import Tx, E, I, S, is_zero, fmt_cond, c_and, c_or, c_not, cond_atoms, rows, eval_cond, val_atoms, eval_val
 from ..astutil import walk_local, stores, parent, ancestors
-from . import c04, c06
+from . import c04, c06, c18
 
 RU = "shangrla/raire/raire_utils.py"
 RA = "shangrla/raire/raire.py"
@@ -40,6 +40,9 @@ def run(chk):
     r3(chk)
     r4(chk)
     r5(chk)
+    # the audit-side reader merges repeated ballot ids through CVR.merge_cvrs: a later line for the same (ballot, contest)
+    # must replace the earlier ranking, as the generator-side reader's `cvrs[bid][cid] = ballot` does (C18.R1/R2/R5)
+    chk.borrow(c18.run, {"C18.R1": "C14.R2", "C18.R2": "C14.R2", "C18.R5": "C14.R2"})
     chk.borrow(c04.r1, {"C04.R1": "C14.R6"})
     chk.borrow(c04.r2, {"C04.R2": "C14.R6"})
 
